@@ -530,7 +530,7 @@ Proof.
     + rewrite (nstate_snoc_other i0 j e run Hne). apply cVv. exact Hgj.
   - intros j Hgj. destruct (N.eq_dec j i0) as [->|Hne].
     + rewrite nstate_snoc_same. fold x x'. unfold L.
-      destruct SL as [SL|(v & L1 & L2 & L3 & L4 & L5)].
+      destruct SL as [SL|(v & L1 & L2 & L3 & L4 & L5 & L6 & L7)].
       * (* no lock in this step *)
         rewrite last_lock_app_other; [|intros u y Hin; apply in_evL in Hin; destruct Hin as (_ & A & B & _); rewrite SL in A; contradiction].
         rewrite (cL i0 Hgj). unfold L. fold x. rewrite SL. destruct (lockv x) as [u|] eqn:El; [|reflexivity].
@@ -671,7 +671,7 @@ Proof.
     assert (Hlb : lb = []).
     { subst LL. unfold lock_ev in Hs. destruct (lockv x'); [destruct (lockv x); [destruct (N.eqb _ _)|]|]; destruct la as [|? [|? ?]]; cbn in Hs; try discriminate; inversion Hs; reflexivity. }
     subst lb. cbn [app]. destruct (inLL e0 He0) as (v & -> & L1 & L2).
-    destruct SL as [SL|(v0 & M1 & M2 & M3 & M4 & M5)]; [rewrite SL in L1; contradiction|]. rewrite L1 in M1. assert (Ev0 : v0 = v) by congruence. rewrite Ev0 in *. clear M1 Ev0.
+    destruct SL as [SL|(v0 & M1 & M2 & M3 & M4 & M5 & M6 & M7)]; [rewrite SL in L1; contradiction|]. rewrite L1 in M1. assert (Ev0 : v0 = v) by congruence. rewrite Ev0 in *. clear M1 Ev0.
     cbn [guard]. split; [|split].
     - assert (P : pcert cm honest (LE ++ LV ++ AH) v (hash_at (tc_t (nstate i0 (run ++ [(i0, e)]))) v)).
       { apply (certP_pcert (run ++ [(i0, e)]) i0 (LE ++ LV ++ AH) v Hr' Hg0 SA'); rewrite nstate_snoc_same; fold x x'; [exact M4|].
